@@ -78,6 +78,30 @@ class AxArr:
 
 
 @dataclass(frozen=True)
+class Opaque:
+    """A symbolic value the interpreter only moves around (an argument of the analysed function)."""
+
+    name: str
+
+
+@dataclass(frozen=True)
+class Promoted:
+    """value converted to the common dtype of `group` (names of the values promoted together)."""
+
+    value: Any
+    group: frozenset
+
+
+@dataclass(frozen=True)
+class Built:
+    """An instance of a watched class built with these arguments."""
+
+    cls: Any
+    args: tuple
+    kwargs: tuple
+
+
+@dataclass(frozen=True)
 class Flat:
     """A ravelled array (what was ravelled is kept for inspection)."""
 
@@ -278,7 +302,7 @@ _TYPE_NAMES = {'int': int, 'tuple': tuple, 'list': list, 'str': str, 'bool': boo
 
 
 def _concrete(v: Any) -> bool:
-    if isinstance(v, (AxArr, Flat, Cat, DiagOf, Obj, Func, Ref, ClassRef, _Unk)):
+    if isinstance(v, (AxArr, Flat, Cat, DiagOf, Obj, Func, Ref, ClassRef, _Unk, Opaque, Promoted, Built)):
         return False
     if isinstance(v, (tuple, list, set, frozenset)):
         return all(_concrete(x) for x in v)
@@ -310,6 +334,7 @@ class Interp:
         self.budget = budget
         self.steps = 0
         self.degraded: list[str] = []  # calls whose interpretation was abandoned (their result is UNK)
+        self.watch_constructors: set[str] = set()  # qualified class names whose construction is recorded, not followed
         self.globals_override: dict = {}  # (module name, identifier) -> value of a module-level object built by the caller
         self.depth = 0
 
@@ -398,6 +423,8 @@ class Interp:
             except Undecided as e:
                 self.degraded.append(f'{getattr(f.node, "name", "<lambda>")}: {e}')
                 return UNK
+        if isinstance(f, ClassRef) and f.cls.qual in self.watch_constructors:
+            return Built(f.cls, tuple(args), tuple(sorted(kwargs.items())))
         if isinstance(f, ClassRef):
             names = self._record_fields(f.cls)
             if names is not None:
@@ -521,6 +548,10 @@ class Interp:
             if isinstance(args[0], AxArr):
                 return [args[0]] if path.endswith('leaves') else ([args[0]], UNK)
             return UNK
+        if path == 'furax.tree.as_promoted_dtype' and len(args) == 1 and not kwargs and isinstance(args[0], (tuple, list)) and all(isinstance(x, (Opaque, Promoted)) for x in args[0]):
+            group = frozenset(x.name if isinstance(x, Opaque) else x.value for x in args[0])
+            out = [Promoted(x, group) for x in args[0]]
+            return tuple(out) if isinstance(args[0], tuple) else out
         if path == 'furax.tree.is_leaf' and args:
             if isinstance(args[0], AxArr):
                 return True
